@@ -94,7 +94,12 @@ pub fn ppreal(a: &[&str]) -> Option<String> {
             Some(format!("{} [{}] minlen={}", crate::util::classify_panic(&msg), msg.replace('\n', " "), minlen))
         }
         Ok(v) => {
-            let oracle = if pre { "-".to_string() } else { crate::util::fmt_opt(crate::ops::naive_find(&hay, &sneedle)) };
+            // a prefilter candidate must not lie behind the first occurrence and must carry the two pair bytes
+            let oracle = if pre {
+                crate::ops::prefilter_oracle(&hay, &needle, i1 as usize, i2 as usize, v, true)
+            } else {
+                crate::util::fmt_opt(crate::ops::naive_find(&hay, &sneedle))
+            };
             Some(format!("ok {} steps={} loads=? oracle={} minlen={}", crate::util::fmt_opt(v), steps, oracle, minlen))
         }
     }
